@@ -145,6 +145,7 @@ func (e *Engine) RunHarness(fn *ssa.Function, cfg RunConfig) *HarnessResult {
 	active := 0
 	started := 0
 	violSeen := map[string]bool{}
+	plainViolations := 0
 	rng := rand.New(rand.NewSource(cfg.Seed + 17))
 	var rngMu sync.Mutex
 	sampled := 0
@@ -250,9 +251,15 @@ func (e *Engine) RunHarness(fn *ssa.Function, cfg RunConfig) *HarnessResult {
 			}
 			for _, v := range pr.violations {
 				key := v.Clause
-				if !violSeen[key] || len(res.Violations) < 5 {
+				// counterexamples that do not rest on an environment choice (an order the sort contract
+				// allows, a map order, a schedule) replay deterministically: five of them are kept besides
+				// the first five of any kind
+				if !violSeen[key] || len(res.Violations) < 5 || (!v.EnvChoice && plainViolations < 5) {
 					violSeen[key] = true
 					res.Violations = append(res.Violations, v)
+					if !v.EnvChoice {
+						plainViolations++
+					}
 				}
 			}
 			if len(res.SolverErrs) < 10 {
@@ -392,19 +399,20 @@ type path struct {
 	inputs    []*inputRec
 	inputBy   map[string]*inputRec
 
-	violations  []*Violation
-	knownHits   map[string]*Violation
-	assertsOK   map[string]int
-	assertsFold map[string]int
-	reached     map[string]int
-	observes    []obsRec
-	observesRaw []rawObs
-	failed      []string
-	funcs       map[string]bool
-	stubs       map[string]bool
-	assumptions map[string]bool
-	envChoices  int
-	pending     []knownRec
+	violations    []*Violation
+	knownHits     map[string]*Violation
+	assertsOK     map[string]int
+	assertsFold   map[string]int
+	reached       map[string]int
+	observes      []obsRec
+	observesRaw   []rawObs
+	failed        []string
+	funcs         map[string]bool
+	stubs         map[string]bool
+	assumptions   map[string]bool
+	envChoices    int
+	envDeviations int // environment choices that left the default (reference order, insertion-sort arrangement)
+	pending       []knownRec
 
 	sentinels []Str
 	intSent   []*Term
